@@ -7,7 +7,7 @@ LEVEL = "model_checking"
 
 
 def check(run):
-    scripts = F.service(run.seed, run.tier)
+    scripts = B.multi(F.service, run.seed, run.tier, 5)
     known = {k["key"]: k["text"] for k in lib.known_findings("C17")}
     nacc, rejected, events, final = B.check_family(run, "C17", scripts, "c17", kind="service", known=known)
     run.add(distinct_nontrivial=len({lib.digest([s["steps"], s["config"]]) for s in scripts}),
